@@ -301,7 +301,7 @@ pub mod sup {
     }
 
     // ---- recording hasher: the recorded sequence *is* the data fed, for any hasher ----
-    pub const REC_CAP: usize = 12;
+    pub const REC_CAP: usize = 6;
     #[derive(Clone, Copy, PartialEq, Eq, Debug)]
     pub struct Rec {
         pub ev: [(u8, u64); REC_CAP],
